@@ -30,7 +30,9 @@ func (s *fileDisk) Finalize() {
 	if len(s.parts) > 0 {
 		// set size of last part
 		lastPart := s.parts[len(s.parts)-1]
+		lastPart.mutex.Lock()
 		lastPart.size = uint64(len(lastPart.buffer.Bytes()))
+		lastPart.mutex.Unlock()
 
 		// save size
 		s.finalSize = lastPart.offset + lastPart.size
@@ -42,7 +44,9 @@ func (s *fileDisk) Finalize() {
 
 	// remove file from memory; we will use disk from now on
 	for _, p := range s.parts {
+		p.mutex.Lock()
 		p.buffer = nil
+		p.mutex.Unlock()
 	}
 
 	s.f.Close()
@@ -60,7 +64,9 @@ func (s *fileDisk) NewPart() Part {
 	offset := uint64(0)
 	if len(s.parts) > 0 {
 		lastPart := s.parts[len(s.parts)-1]
+		lastPart.mutex.Lock()
 		lastPart.size = uint64(len(lastPart.buffer.Bytes()))
+		lastPart.mutex.Unlock()
 		offset = lastPart.offset + lastPart.size
 	}
 
